@@ -41,7 +41,8 @@ type c13Mock struct {
 	cancelParent context.CancelFunc
 	starts       []time.Time
 	blocked      []time.Duration
-	cancelledAt  int // ping index during/around which the parent was cancelled, -1 = never
+	deadlines    []time.Time // deadline of the context each ping was given
+	cancelledAt  int         // ping index during/around which the parent was cancelled, -1 = never
 	extraPing    chan struct{}
 	term         int // index of the ping after which KeepAlive must return (-1: none)
 	overrun      chan int
@@ -61,6 +62,8 @@ func (m *c13Mock) Ping(ctx context.Context) error {
 	k := len(m.starts)
 	m.starts = append(m.starts, time.Now())
 	m.blocked = append(m.blocked, 0)
+	dl, _ := ctx.Deadline()
+	m.deadlines = append(m.deadlines, dl)
 	c := m.c
 	term := m.term
 	m.mu.Unlock()
@@ -194,7 +197,9 @@ func c13Run(tb rapid.TB, c c13Case) {
 	m.mu.Lock()
 	starts := append([]time.Time{}, m.starts...)
 	blocked := append([]time.Duration{}, m.blocked...)
+	deadlines := append([]time.Time{}, m.deadlines...)
 	m.mu.Unlock()
+	_ = blocked
 
 	if ret == nil {
 		fail("KeepAlive returned nil")
@@ -211,8 +216,10 @@ func c13Run(tb rapid.TB, c c13Case) {
 		if !errors.Is(ret, ErrPingTimeout) {
 			fail("ping %d was never answered, KeepAlive returned %v (want ErrPingTimeout)", term, ret)
 		}
-		if blocked[term] < timeout {
-			fail("the unanswered ping %d was given up after %v, before the timeout %v", term, blocked[term], timeout)
+		// The ping's context is created after tick #term+1, which cannot come before t0+(term+1)*interval, so its
+		// deadline is at least that plus the timeout (a pure lower bound: delays only make the deadline later).
+		if min := t0.Add(time.Duration(term+1)*interval + timeout); deadlines[term].IsZero() || deadlines[term].Before(min) {
+			fail("the unanswered ping %d was given a deadline %v after KeepAlive started; with interval %v and timeout %v it cannot be earlier than %v", term, deadlines[term].Sub(t0), interval, timeout, min.Sub(t0))
 		}
 	case "fail":
 		if !errors.Is(ret, errC13Ping) || errors.Is(ret, ErrPingTimeout) {
